@@ -95,6 +95,33 @@ Definition rj_verdict_spec (privileged : bool) (d : rj_data) (r : rj_result) : P
   | RJError => no_authoriser_needed d = false
   end.
 
+(* Judging an observed verdict of checkRestrictedJoin from the querier answers alone.  The power
+   levels in [d] are those of the room BEING JOINED (the querier is asked per room); a user who
+   can invite elsewhere but not here must not be named. *)
+Definition all_candidates (d : rj_data) : list bytes :=
+  match rj_join_rules d with QVal jr => flat_map candidates (jr_allow jr) | _ => [] end.
+
+Definition nobody_vouches (privileged : bool) (d : rj_data) : bool :=
+  negb (existsb (vouched_by privileged d) (all_candidates d)).
+
+Inductive rj_observed := ObsVia (u : bytes) | ObsForbidden | ObsUnable | ObsError.
+
+Definition rj_observed_admissible (ver : bytes) (d : rj_data) (o : rj_observed) : bool :=
+  match version_rj_kind ver with
+  | RJKNoCheck => match o with ObsVia [] => true | _ => false end
+  | RJKNilFunc => false
+  | RJKCheck =>
+      let p := version_privileged_creators ver in
+      match o with
+      | ObsVia u => (match u with [] => no_authoriser_needed d | _ => false end) || vouched_by p d u
+      | ObsForbidden | ObsUnable => nobody_vouches p d
+      | ObsError => negb (no_authoriser_needed d)
+      end
+  end.
+
+Definition observe (r : rj_result) : rj_observed :=
+  match r with RJVia u => ObsVia u | RJForbidden => ObsForbidden | RJUnable => ObsUnable | RJError => ObsError end.
+
 Definition built_passes_auth (b : build_res) : bool :=
   match b with
   | BBuilt e => bytes_eqb (b_type e) m_room_member && b_provider_ok e && b_allowed_ok e
